@@ -529,11 +529,23 @@ def unreg_shape(ctx: Ctx) -> List[Ob]:
 
 
 # ------------------------------------------------------------------- PAIR-3
-def _slot_key_text(node: ast.AST) -> Optional[str]:
-    """Key text of `index[key]` inside an index-slot expression or store."""
+def _slot_key_text(node: ast.AST, ctx: Optional[Ctx] = None, f: Optional[Func] = None) -> Optional[str]:
+    """Key text of `index[key]` / `index.get(key)` / `index.setdefault(key, ..)` inside an index-slot
+    expression or store; a local that holds the slot is resolved through its reaching definitions."""
     for x in ast.walk(node):
         if isinstance(x, ast.Subscript):
             return norm(x.slice)
+        if isinstance(x, ast.Call) and isinstance(x.func, ast.Attribute) and x.func.attr in ("get", "setdefault") and x.args \
+                and norm(x.func.value).endswith("_nodes_by_data_id"):
+            return norm(x.args[0])
+    if ctx is not None and f is not None:
+        from .util import reaching_values
+
+        for x in ast.walk(node):
+            if isinstance(x, ast.Call) and isinstance(x.func, ast.Attribute) and x.func.attr in ("append", "extend") and isinstance(x.func.value, ast.Name):
+                keys = {_slot_key_text(v) for v in reaching_values(ctx, f, node, x.func.value) if v is not x.func.value}
+                if len(keys) == 1:
+                    return keys.pop()
     return None
 
 
@@ -560,7 +572,7 @@ def pair3(ctx: Ctx) -> List[Ob]:
             def add_new(n: N) -> bool:
                 for e2 in si.direct.get(n.id, []):
                     if (e2.op in ("append", "extend") and e2.field == SLOT) or (e2.op == "setitem" and e2.field == "_nodes_by_data_id"):
-                        k = _slot_key_text(n.ast)
+                        k = _slot_key_text(n.ast, ctx, f)
                         if k == newv:
                             return True
                 return False
